@@ -136,7 +136,7 @@ Inductive case :=
 | KSelArr (rows cols : Z) (wells : arr string) (out : option (list bool))
 | KHex (n : Z) (out : string)
 | KXf (c : xf_call) (out : res (arr (option string)))
-| KWith (filename : string) (stale recs : list string) (raised : bool) (twice : bool) (old content : option string)
+| KWith (filename : string) (stale recs : list string) (raised : bool) (twice : bool) (old content : option string) (refused : bool)
     (* w = Worklist(filename); w.extend(stale); with w: w.extend(recs) [raise]; [with w: w.extend(recs)] -> file content *)
 | KRandCtor (mode R C : Z) (draws : list (list string)) (out : res (list (string * string)))
     (* WellRandomizer((R, C), seed, mode).lookup items in insertion order; draws = what rng.permutation returned *)
@@ -188,19 +188,25 @@ Definition check (c : case) : bool :=
       option_eqb (list_eqb Bool.eqb) (selection_array (nat_ rows) (nat_ cols) (flattenC wells)) out
   | KHex n out => String.eqb (to_hex (Z.to_N n)) out
   | KXf call out => res_match (arr_eqb (option_eqb String.eqb)) (xf_run call) out
-  | KWith filename stale recs raised twice old content =>
+  | KWith filename stale recs raised twice old content refused =>
       let w0 := wl_append (wl_init (Some filename)) stale in
       let w1 := wl_append (wl_enter w0) recs in
       let r1 := wl_exit w1 raised old in
       let r := if twice then wl_exit (wl_append (wl_enter w1) recs) false (fst r1) else r1 in
+      (* the file afterwards, and whether leaving the block was refused (the library raises) *)
       match snd r with
-      | None => option_eqb String.eqb (fst r) content
-      | Some _ => option_eqb String.eqb (fst r) content && option_eqb String.eqb content (if twice then fst r1 else old)
+      | None => option_eqb String.eqb (fst r) content && negb refused
+      | Some _ => option_eqb String.eqb (fst r) content && refused
       end
   | KRandCtor mode R C draws out =>
       let m := if (mode =? 0)%Z then RFull else if (mode =? 1)%Z then RRow else RColumn in
       res_match (list_eqb (fun a b => String.eqb (fst a) (fst b) && String.eqb (snd a) (snd b)))
                 (mk_rand_table m (nat_ R) (nat_ C) draws) out
+      (* an accepted construction made exactly one draw per request, each as long as the request *)
+      && match out with
+         | Ok _ => list_eqb (fun (a b : list string) => (length a =? length b)%nat) (rand_requests m (nat_ R) (nat_ C)) draws
+         | Err _ => true
+         end
   | KSave filename recs content readback shown =>
       match save filename None recs with
       | (Some txt, None) => option_eqb String.eqb (Some txt) content
